@@ -1631,8 +1631,7 @@ def _dump_provenance(f: TextIO, data: IOData, source: str) -> Union[list[dict], 
         if isinstance(provenance, dict):
             return [provenance, new_provenance]
         if isinstance(provenance, list):
-            provenance.append(new_provenance)
-            return provenance
+            return [*provenance, new_provenance]
         raise DumpError("QCSchema provenance must be either a dict or list of dicts.", f)
     return new_provenance
 
@@ -1750,7 +1749,7 @@ def _dump_qcschema_output(f: TextIO, data: IOData) -> dict:
     output_dict["model"]["basis"] = data.obasis_name
     if "properties" not in data.extra["output"]:
         raise DumpError("qcschema_output requires `properties` field in extra['output'].", f)
-    output_dict["properties"] = data.extra["output"]["properties"]
+    output_dict["properties"] = dict(data.extra["output"]["properties"])
     if data.energy is not None:
         output_dict["properties"]["return_energy"] = data.energy
         if output_dict["driver"] == "energy":
